@@ -4,6 +4,7 @@ import MiniconfVerif.Props.C16
 #print axioms MiniconfVerif.C16.packed_ops_no_overflow
 #print axioms MiniconfVerif.C16.lsb_no_panic
 #print axioms MiniconfVerif.C16.key_width_in_contract
+#print axioms MiniconfVerif.C16.source_packed_next_no_panic
 #print axioms MiniconfVerif.C16.walk_total
 #print axioms MiniconfVerif.C16.traverse_total
 #print axioms MiniconfVerif.C16.keys_total
